@@ -1,6 +1,7 @@
 (* Conversions between OCaml ints/strings and the extracted inductive numbers, and
    parsing helpers for case lines.  Hand-written glue (trusted base). *)
 open Model
+type string = Stdlib.String.t
 
 let rec pos_of_int (i : int) : positive =
   if i = 1 then XH
@@ -94,3 +95,31 @@ let bits_of_bytes (le : bool) (b : Bytes.t) (from : int) (len : int) : bool list
   go (from + len - 1) []
 
 let rec list_len_int l = List.length l
+
+(* Coq strings (inductive ascii of 8 booleans, least significant first) *)
+let coq_of_char (c : char) : ascii =
+  let n = Char.code c in
+  let b i = (n lsr i) land 1 = 1 in
+  Ascii (b 0, b 1, b 2, b 3, b 4, b 5, b 6, b 7)
+
+let char_of_coq (a : ascii) : char =
+  match a with
+  | Ascii (b0, b1, b2, b3, b4, b5, b6, b7) ->
+    let v b i = if b then 1 lsl i else 0 in
+    Char.chr (v b0 0 + v b1 1 + v b2 2 + v b3 3 + v b4 4 + v b5 5 + v b6 6 + v b7 7)
+
+let coq_of_string (s : string) : Model.string =
+  let rec go i acc = if i < 0 then acc else go (i - 1) (String (coq_of_char s.[i], acc)) in
+  go (String.length s - 1) EmptyString
+
+let string_of_coq (s : Model.string) : string =
+  let b = Buffer.create 64 in
+  let rec go = function EmptyString -> () | String (a, r) -> Buffer.add_char b (char_of_coq a); go r in
+  go s; Buffer.contents b
+
+(* usize::MAX *)
+let n_usize_max : n =
+  let rec ones k = if k = 1 then XH else XI (ones (k - 1)) in Npos (ones 64)
+
+let n_of_token (s : string) : n = if s = "inf" then n_usize_max else n_of_int (int_of_string s)
+let token_of_n (x : n) : string = if x = n_usize_max then "inf" else string_of_int (int_of_n x)
